@@ -10,6 +10,7 @@ import TdVerif.Model.C01Coherence
 import TdVerif.Lemmas.C01
 import TdVerif.Model.C01Lazy
 import TdVerif.Lemmas.C01Lazy
+import TdVerif.Lemmas.C01UpdateBs
 
 namespace TdVerif.Props.C01
 open TdVerif TdVerif.C01
@@ -137,6 +138,18 @@ theorem select_in_place_coherent (observed t : M) (hc : Coherent t) :
     Coherent (selectInM observed t).1 ∧ (selectInM observed t).1.shape = t.shape :=
   ⟨(selectInM_spec observed t hc).2.2, (selectInM_spec observed t hc).1⟩
 
+/-- `update(payload, update_batch_size=True)` with a coherent tensordict payload (after the `fix:` commits d11e6ff / 45f58da): the
+"mismatching batch sizes" head (every key of the receiver must be a key of the payload; `batch_size = ()`, the leaves excluded,
+`batch_size = payload.batch_size`), the loop over the entries with the recursion into the nested tensordicts that meet a nested
+tensordict, the flag `batch_size_changed`, the final adjustment `batch_size = (); auto_batch_size_(batch_dims)` and the exception
+handler that runs the same adjustment (swallowing its own errors) before re-raising. In between, the tree is NOT coherent (a nested
+tensordict already has the payload's batch size, the level above not yet); the theorem says that WHEREVER the call stops —
+accepted, refused at the head, refused in the middle of the entries, at any depth — the receiver is coherent again, on the same
+device. Before the two commits it was false (a nested tensordict of batch size [1] under [3,1]; a refused call leaving [3] under [0,3]). -/
+theorem update_batch_size_coherent (payload t : M) (hp : Coherent payload) (hc : Coherent t) :
+    Coherent (updateBsM payload t).1 ∧ ∀ d, (updateBsM payload t).1.onDev d = t.onDev d :=
+  updateBsM_keeps payload t hp hc
+
 /-! ## one step -/
 
 /-- the value of a `set` is itself a coherent tensor / tensordict (what the constructors deliver) -/
@@ -144,18 +157,21 @@ def ValOk : Op → Prop
   | .set _ _ v => Coherent v
   | .setdefault _ _ v => Coherent v
   | .updateTd _ m => Coherent m
+  | .updateBs _ m => Coherent m
   | _ => True
 
-/-- scope of the property: a `batch_size` assigned through a nested handle — directly or by `auto_batch_size_` — still
+/-- scope of the property: a `batch_size` assigned through a nested handle — directly, by `auto_batch_size_` or by
+`update(..., update_batch_size=True)` — still
 extends the batch size of the node holding that tensordict ("shrinking a child's batch size below its parent's through a
 direct handle" is the documented exclusion). On the root the condition is void. -/
 def InScope (t : M) : Op → Prop
   | .setBatch h bs => handleOk bs h t
   | .autoBatch h bd => ∀ n, getPath h t = some n → handleOk (autoBatchM bd n).1.shape h t
+  | .updateBs h m => ∀ n, getPath h t = some n → handleOk (updateBsM m n).1.shape h t
   | _ => True
 
 /-- THE PROPERTY, one step: for every modelled operation — set, batch_size, names, del_, rename_key_, create_nested, clear,
-pop, popitem, setdefault, refine_names, update with dict or tensordict payloads, exclude / flatten_keys / unflatten_keys / select in place,
+pop, popitem, setdefault, refine_names, update with dict or tensordict payloads (also with update_batch_size=True), exclude / flatten_keys / unflatten_keys / select in place,
 auto_batch_size_, and the writes into existing storage (set_, set_at_, update_, update_at_, `td[index] = value`) through their envelope — issued on the root or through any nested handle, and for EVERY outcome (accepted or raising, partial
 effects included): a coherent tree stays coherent. `ValOk`: the written value is itself a coherent tensor / tensordict;
 `InScope`: the property's documented exclusion (a child resized through a direct handle below its parent's batch size).
@@ -198,6 +214,12 @@ theorem step_coherent (t : M) (hc : Coherent t) (op : Op) (hv : ValOk op) (hs : 
         simp only [step, atPath]
         exact (autoBatchM_spec bd tbs dv ns kids hc).2.2.2
     | cons k rest => exact (atPath_resize _ (autoBatchM_keeps bd) (k :: rest) (by simp) t hc hs).2.2
+  | updateBs h m =>
+    cases h with
+    | nil =>
+      simp only [step, atPath]
+      exact (updateBsM_keeps m t hv hc).1
+    | cons k rest => exact (atPath_resize _ (fun n hn => updateBsM_keeps m n hv hn) (k :: rest) (by simp) t hc hs).2.2
 
 /-- histories: the side conditions along a run -/
 def Safe (t : M) : List Op → Prop
